@@ -280,14 +280,11 @@ def run(ctx):
                     ok = True
             ctx.inst('P5', 'Indexed#validated', ok, 'Pixels::Indexed{data: %s} %s dominated by a successful palette.validate_indexed_pixels(data)'
                      % (show(data)[:60], 'is' if ok else 'is NOT'), st['span'], key=body.name + '|P5|validated')
-            # palette None -> Err
-            okn = False
-            for cond, vals, a in q.guards(body, bb):
-                if cond[0] == 'discr' and is_param(cond[1]) and body.locals[cond[1][1]]['ty'].startswith('std::option::Option<') \
-                        and 'ColorPalette' in body.locals[cond[1][1]]['ty'] and vals == [1]:
-                    tm = body.blocks[a]['term']
-                    none_edge = [s for v, s in tm['targets'] if v == 0] or [tm['otherwise']]
-                    okn = all(q.arm_always_err(body, e) for e in none_edge)
+            # palette None -> Err (if-let/else, match, is_none() test or ok_or_else(..)?), before the pixels are kept
+            import totality as _T
+            req = _T.option_required(body, lambda x: is_param(x) and body.locals[x[1]]['ty'].startswith('std::option::Option<') and
+                                     'ColorPalette' in body.locals[x[1]]['ty'])
+            okn = any(body.cfg.dominates(r_, bb) for r_ in req)
             ctx.inst('P5', 'Indexed#palette-present', okn, 'indexed pixels without a palette -> %s' % ('Err' if okn else 'NOT rejected'),
                      st['span'], key=body.name + '|P5|no-palette')
     vb = ctx.anchor('asefile::palette::ColorPalette::validate_indexed_pixels')
